@@ -558,7 +558,7 @@ func heldBytes(n, B, T, chunk, delay int) (uint64, error) {
 }
 
 func TestProp_Memory(t *testing.T) {
-	ev.Describe("memory", "streams of N >= 2 MiB (N >= 256*(B+T)) in tokens of length T, every shifted token freed (immediately or delayed by <= 3 tokens), buffer size B in {0,1,16,64,4096,65536}, T in 1..20000, reader chunk in {1..100000}; oracle: live heap after GC with the lexer still reachable minus the baseline <= 16*(B+T) + 256 KiB, i.e. bounded by buffer size plus token length and not by the stream (a retained stream would be >= 2 MiB); non-trivial = every case (distinct by parameters)")
+	ev.Describe("memory", "streams of N >= 2 MiB (N >= 256*(B+T)) in tokens of length T, every shifted token freed (immediately or delayed by <= 3 tokens), buffer size B in {0,1,16,64,4096,65536}, T in 1..20000, reader chunk in {1..100000}; oracle: live heap after GC with the lexer still reachable minus the baseline <= 16*(delay+1)*(B+T) + 256 KiB (bounded by buffer size plus the unfreed tokens, not by the stream: a retained stream would be >= 2 MiB and >= 128*(B+T)), and in a quarter of the cases with chunk >= 13 the same run over a 4 times longer stream holds at most 25% + 64 KiB more; non-trivial = every case (distinct by parameters)")
 	ev.Check(t, 60, func(t *rapid.T) {
 		B := rapid.SampledFrom([]int{0, 1, 16, 64, 4096, 65536}).Draw(t, "B")
 		T := rapid.OneOf(rapid.IntRange(1, 16), rapid.IntRange(1, 300), rapid.IntRange(1000, 20000)).Draw(t, "T")
@@ -569,15 +569,32 @@ func TestProp_Memory(t *testing.T) {
 			n = m
 		}
 		if chunk < 13 {
-			n = 2 << 20 // one-byte reads: keep the run short
+			// one-byte reads: keep the run short, but well above the bound below
+			n = 2 << 20
+			if m := 128 * (B + T); m > n {
+				n = m
+			}
 		}
 		got, err := heldBytes(n, B, T, chunk, delay)
 		if err != nil {
 			t.Fatalf("B=%d T=%d chunk=%d delay=%d: %v", B, T, chunk, delay, err)
 		}
-		bound := uint64(16*(B+T) + 256<<10)
+		// up to delay+1 tokens are unfreed at any time and every block may have grown to a small multiple of the token:
+		// measured on the pinned tree <= 7.5*(delay+1)*(B+T); the factor 16 leaves room, a retained stream does not fit
+		bound := uint64(16*(delay+1)*(B+T) + 256<<10)
 		if got > bound {
-			t.Fatalf("B=%d T=%d chunk=%d delay=%d: %d bytes are held after a stream of %d bytes with every token freed; bound 16*(B+T)+256KiB = %d", B, T, chunk, delay, got, n, bound)
+			t.Fatalf("B=%d T=%d chunk=%d delay=%d: %d bytes are held after a stream of %d bytes with every token freed; bound 16*(delay+1)*(B+T)+256KiB = %d", B, T, chunk, delay, got, n, bound)
+		}
+		if chunk >= 13 && rapid.IntRange(0, 3).Draw(t, "growth") == 0 {
+			// the defining clause: what is held does not grow with the stream
+			got4, err := heldBytes(4*n, B, T, chunk, delay)
+			if err != nil {
+				t.Fatalf("B=%d T=%d chunk=%d delay=%d: %v", B, T, chunk, delay, err)
+			}
+			if got4 > got+got/4+64<<10 {
+				t.Fatalf("B=%d T=%d chunk=%d delay=%d: %d bytes held after %d bytes of stream, %d after %d bytes: grows with the stream", B, T, chunk, delay, got, n, got4, 4*n)
+			}
+			ev.Count("memory", "growth-compared", 1)
 		}
 		ev.Case("memory", fmt.Sprintf("B=%d T=%d chunk=%d delay=%d", B, T, chunk, delay), true, fmt.Sprintf("B=%d", B))
 	})
